@@ -4,6 +4,7 @@ import (
 	"bytes"
 	"encoding/binary"
 	"encoding/gob"
+	"errors"
 	"fmt"
 	"sync"
 
@@ -85,6 +86,27 @@ func (idx *BigIndexWriter) AddRow(values map[string]string) (uint32, error) {
 	}
 
 	return rowID, nil
+}
+
+// Close releases the temporary transaction that collects the rows. It must be called when the writer
+// is abandoned without a successful Flush (for example because reading the input failed): as long as
+// that transaction is pending, closing the temporary database blocks. After a Flush it is a no-op.
+func (idx *BigIndexWriter) Close() error {
+	idx.mtx.Lock()
+	defer idx.mtx.Unlock()
+
+	if idx.tempTx == nil {
+		return nil
+	}
+
+	err := idx.tempTx.Rollback()
+	idx.tempTx = nil
+
+	if errors.Is(err, bbolt.ErrTxClosed) {
+		return nil
+	}
+
+	return err
 }
 
 func (idx *BigIndexWriter) Flush() error {
